@@ -22,7 +22,8 @@ the executor stopped — so the coroutine ends at every phase relative to the sl
 run in real time (`asyncio.wait_for`, `asyncio.timeout`, a bounded `receive_msg` on a connected session whose peer stays
 silent, `stop()` from another thread).  Correspondence: outcome class, identity of the exception and number of polls
 against `execute` / `executeSync` / `passesUsed` of the model (`sync.exec`); oracle: the call came back within the
-watchdog and with the coroutine's result, the underlying error, or a timeout / state error.
+watchdog and with the coroutine's result, the underlying error, or a timeout / state error; a call WITHOUT a timeout whose
+coroutine returned a value returns it, and raises a TimeoutError only if the coroutine itself ended with one.
 
 OS scheduling and fairness are not modelled: the harness *is* the scheduler, the model allows every interleaving.
 """
@@ -924,6 +925,10 @@ class ScriptedFuture:
         c.polls += 1
         if c.seen_done:
             c.polls_after_done += 1
+        if c.fut.done():
+            c.log.append('done')    # a finished future never waits: its outcome at once, no script step is spent
+            c.seen_done = True
+            return c.fut.result(timeout=timeout)
         act = c.script.pop(0) if c.script else 'real'
         if timeout is None and act in ('E', 'R', 'S', 'e'):
             act = 'real'            # a wait without a timeout cannot be made to expire
@@ -1060,6 +1065,17 @@ def run_exec(server, sc):
     res['hung'] = th.is_alive()
     res['polls'], res['polls_after_done'], res['log'] = ctl.polls, ctl.polls_after_done, ctl.log[:40]
     res['future_done'] = bool(ctl.fut is not None and ctl.fut.done())
+    # how the coroutine itself ended (what "its result" / "the underlying error" is), read off the future
+    if ctl.fut is None:
+        res['future'] = 'none'
+    elif not ctl.fut.done():
+        res['future'] = 'pending'
+    elif ctl.fut.cancelled():
+        res['future'] = 'cancelled'
+    else:
+        fe = ctl.fut.exception()
+        res['future'] = 'returned' if fe is None else 'raised:' + type(fe).__name__
+        res['future_timeout'] = isinstance(fe, TimeoutError)
     res['cancel_called'] = ctl.cancel_called
     if res['hung']:
         W.exec_hangs += 1
@@ -1315,7 +1331,7 @@ def exec_desc(sc):
 def exec_findings(sc, r):
     """the statement on one executor-level call: it came back, and with its result, the underlying error, or a timeout /
     state error (ValueError for an argument that is no coroutine / callable)"""
-    base = {'exec': {k: v for k, v in sc.items() if k not in ('id',)}}
+    base = {'exec': {k: v for k, v in sc.items() if k not in ('id', 'corpus')}}
     if r.get('process_timeout'):
         return [('the scenario process itself did not finish within its hard timeout (hang): ' + exec_desc(sc), dict(base, kind='exec-process-timeout'))]
     if r.get('fatal'):
@@ -1341,9 +1357,19 @@ def exec_findings(sc, r):
         allowed = {under, 'expiry', 'expiry-subclass', 'timeout', 'timeoutSub', 'state'}
         if sc.get('arg') == 'bad':
             allowed.add('value')
+        untimed = sc.get('timeout') is None
+        is_tmo = cls in ('expiry', 'expiry-subclass', 'timeout', 'timeoutSub')
         if cls not in allowed:
             out.append((f"{exec_desc(sc)} raised {r.get('raised')}: neither the underlying error nor a timeout / state error",
                         dict(base, kind='exec-wrong-error')))
+        elif untimed and r.get('future') == 'returned':
+            # "returns its result": no timeout was asked for and the coroutine did return a value
+            out.append((f"{exec_desc(sc)}: no timeout was given and the coroutine returned its value, yet the call raised "
+                        f"{r.get('raised')} - the result is lost", dict(base, kind='exec-result-lost')))
+        elif untimed and is_tmo and not r.get('future_timeout'):
+            # a timeout error from a call without a timeout is only the underlying error if the coroutine raised it
+            out.append((f"{exec_desc(sc)}: no timeout was given and the coroutine did not end with a TimeoutError "
+                        f"(future: {r.get('future')}), yet the call raised {r.get('raised')}", dict(base, kind='exec-untimed-timeout')))
     else:
         out.append((f"{exec_desc(sc)}: no outcome recorded ({o})", dict(base, kind='exec-no-outcome')))
     return out
@@ -1356,14 +1382,14 @@ def exec_correspondence(ctx, sc, r, ans):
     if not ans.startswith('ok '):
         ctx.disagree(f'model answered {ans[:80]} for {exec_desc(sc)}', base)
         return
-    want, passes = ans[3:].split(' passes=')
+    want, passes = ans[3:].split(' polls=')
     got = r.get('outcome')
     if got == 'raised:expiry-subclass':
         got = 'raised:expiry?'
     if got != want:
         ctx.disagree(f"{exec_desc(sc)}: model {want} vs implementation {r.get('outcome')} ({r.get('raised')}, own={r.get('own')})", base)
     elif int(passes) != r.get('polls'):
-        ctx.disagree(f"{exec_desc(sc)}: model leaves the slice loop after {passes} passes, implementation polled future.result() {r.get('polls')} times", base)
+        ctx.disagree(f"{exec_desc(sc)}: model calls future.result() {passes} times until it leaves the slice loop, implementation {r.get('polls')} times", base)
 
 
 def shrink_exec(sc, kind):
@@ -1602,7 +1628,22 @@ def load_corpus():
         for f in sorted(os.listdir(d)):
             if f.endswith('.json'):
                 j = json.load(open(os.path.join(d, f)))
-                out.append({'cfg': j['cfg'], 'labels': j['labels'], 'name': j.get('name', f), 'corpus': f})
+                if 'cfg' in j:
+                    out.append({'cfg': j['cfg'], 'labels': j['labels'], 'name': j.get('name', f), 'corpus': f})
+    return out
+
+
+def load_exec_corpus():
+    """executor-level regressions (`{"exec": [call, …]}` files of corpus/C20)"""
+    import common
+    out = []
+    d = os.path.join(common.VERIF, 'corpus', 'C20')
+    if os.path.isdir(d):
+        for f in sorted(os.listdir(d)):
+            if f.endswith('.json'):
+                j = json.load(open(os.path.join(d, f)))
+                for e in j.get('exec', []):
+                    out.append(dict(e, type='exec', corpus=f))
     return out
 
 
@@ -1669,7 +1710,7 @@ def run(ctx):
         s['id'] = k
     conn = [{'type': 'connect', 'mode': m, 'id': f'connect-{m}'} for m in ('accepted', 'rejected', 'peerClosed', 'connRefused',
                                                                              'acceptedThenClosed')]
-    execs = gen_exec(rng, ctx.tier)
+    execs = load_exec_corpus() + gen_exec(rng, ctx.tier)
     for k, e in enumerate(execs):
         e['id'] = f'exec-{k}'
     nworkers = min(12, max(2, (os.cpu_count() or 4) - 2))
